@@ -53,6 +53,7 @@ def make_case(seed, tier):
                     'cron_trigger.execution_interval':
                     rng.choice([1, 1, 5, 20])}
     case['processors'] = rng.choice([1, 2, 2, 3])
+    c['overlap'] = rng.choice([0.0, 0.5, 1.0])
     case['offsets'] = [rng.choice([0, 0, 0.3, 0.7]) for _ in range(3)]
     trigs = []
     for i in range(rng.randint(1, 3)):
